@@ -33,3 +33,85 @@ pub fn norm_maps(v: &Value) -> Value {
         x => x.clone(),
     }
 }
+
+// ---------------------------------------------------------------------------------------------
+// Constructors: abstract raw library (specs/raw/MC_RawGds.tla, RawProto.tla) -> raw::Library
+// ---------------------------------------------------------------------------------------------
+use crate::util::*;
+use layout21utils::Ptr;
+use raw::{LayerPurpose, Point};
+
+/// The fixed layer table used by generated libraries: purposes carry distinct numbers so that a
+/// layer/purpose mix-up is visible.
+pub fn std_layers() -> Layers {
+    let mut l = Layers::default();
+    l.add(raw::Layer::new(1, "met1").add_pairs(&[(0, LayerPurpose::Drawing), (1, LayerPurpose::Pin), (2, LayerPurpose::Label), (3, LayerPurpose::Obstruction)]).unwrap());
+    l.add(raw::Layer::new(2, "met2").add_pairs(&[(0, LayerPurpose::Drawing), (5, LayerPurpose::Pin), (7, LayerPurpose::Label), (9, LayerPurpose::Obstruction)]).unwrap());
+    l.add(raw::Layer::new(3, "via1").add_pairs(&[(0, LayerPurpose::Drawing), (4, LayerPurpose::Pin), (6, LayerPurpose::Label), (8, LayerPurpose::Obstruction)]).unwrap());
+    l.add(raw::Layer::new(4, "met3").add_pairs(&[(0, LayerPurpose::Drawing), (11, LayerPurpose::Pin), (12, LayerPurpose::Label), (13, LayerPurpose::Obstruction)]).unwrap());
+    l
+}
+pub fn purpose_of(s: &str) -> LayerPurpose {
+    match s { "Drawing" => LayerPurpose::Drawing, "Pin" => LayerPurpose::Pin, "Label" => LayerPurpose::Label,
+              "Obstruction" => LayerPurpose::Obstruction, "Outline" => LayerPurpose::Outline, _ => panic!("harness: purpose {s}") }
+}
+pub fn units_of(s: &str) -> raw::Units {
+    match s { "Micro" => raw::Units::Micro, "Nano" => raw::Units::Nano, "Angstrom" => raw::Units::Angstrom, "Pico" => raw::Units::Pico, _ => panic!("units") }
+}
+fn rpts(v: &Value) -> Vec<Point> { v.as_array().unwrap().iter().map(|p| Point::new(p[0].as_i64().unwrap() as isize, p[1].as_i64().unwrap() as isize)).collect() }
+pub fn shape_of(e: &Value) -> Shape {
+    let p = rpts(&e["pts"]);
+    match gets(e, "k") {
+        "rect" => Shape::Rect(raw::Rect { p0: p[0], p1: p[1] }),
+        "polygon" => Shape::Polygon(raw::Polygon { points: p }),
+        "path" => Shape::Path(raw::Path { points: p, width: geti(e, "width") as usize }),
+        k => panic!("harness: shape kind {k}"),
+    }
+}
+pub fn raw_lib_of(v: &Value) -> raw::Library {
+    let layers = std_layers();
+    let mut lib = raw::Library::new(gets(v, "name"), units_of(gets(v, "units")));
+    // two passes: cells first (so that instances can point at cells listed later)
+    let cells: Vec<Ptr<raw::Cell>> = geta(v, "cells").iter().map(|c| Ptr::new(raw::Cell::new(gets(c, "name")))).collect();
+    let find = |n: &str| -> Ptr<raw::Cell> { geta(v, "cells").iter().position(|c| gets(c, "name") == n).map(|i| cells[i].clone()).expect("harness: unknown cell") };
+    for (i, c) in geta(v, "cells").iter().enumerate() {
+        let mut cell = cells[i].write().unwrap();
+        if c.get("elems").is_some() || c.get("insts").is_some() {
+            let mut lay = raw::Layout::default();
+            lay.name = gets(c, "name").to_string();
+            for inst in geta(c, "insts") {
+                let a = geti(inst, "angle");
+                lay.insts.push(raw::Instance { inst_name: gets(inst, "name").into(), cell: find(gets(inst, "cell")),
+                    loc: rpts(&json!([inst["loc"]]))[0], reflect_vert: getb(inst, "refl"), angle: if a < 0 { None } else { Some(a as f64) } });
+            }
+            for e in geta(c, "elems") {
+                let net = gets(e, "net");
+                lay.elems.push(raw::Element { net: if net.is_empty() { None } else { Some(net.into()) },
+                    layer: layers.keynum(geti(e, "layer") as i16).expect("layer"), purpose: purpose_of(gets(e, "purpose")), inner: shape_of(e) });
+            }
+            for a in geta(c, "annots") {
+                lay.annotations.push(raw::TextElement { string: gets(a, "str").into(), loc: rpts(&json!([a["at"]]))[0] });
+            }
+            cell.layout = Some(lay);
+        }
+        if let Some(a) = c.get("abs").and_then(|a| a.as_array()).and_then(|a| a.first()) {
+            let mut ab = raw::Abstract::new(gets(c, "name"), raw::Polygon { points: rpts(&a["outline"]) });
+            for p in geta(a, "ports") {
+                let mut port = raw::AbstractPort::new(gets(p, "net"));
+                for (lnum, shapes) in p["shapes"].as_object().unwrap() {
+                    port.shapes.insert(layers.keynum(lnum.parse().unwrap()).unwrap(), shapes.as_array().unwrap().iter().map(shape_of).collect());
+                }
+                ab.ports.push(port);
+            }
+            if let Some(b) = a["blockages"].as_object() {
+                for (lnum, shapes) in b {
+                    ab.blockages.insert(layers.keynum(lnum.parse().unwrap()).unwrap(), shapes.as_array().unwrap().iter().map(shape_of).collect());
+                }
+            }
+            cell.abs = Some(ab);
+        }
+    }
+    lib.layers = Ptr::new(layers);
+    for c in cells { lib.cells.push(c); }
+    lib
+}
